@@ -7,7 +7,36 @@ import (
 	"fmt"
 	"net"
 	"strconv"
+
+	"github.com/pion/stun/v3"
 )
+
+const (
+	xorAddressFamilyIPv4 = 0x01
+	xorAddressFamilyIPv6 = 0x02
+	xorAddressSizeIPv4   = 4 + net.IPv4len
+	xorAddressSizeIPv6   = 4 + net.IPv6len
+)
+
+// checkXORAddressSize rejects an XOR-*-ADDRESS attribute whose length does not match its
+// family (8 bytes for IPv4, 20 for IPv6). Without it a value cut short decodes into a
+// partially filled IP instead of an error. Absent attributes and unknown families are left
+// for the decoder to report.
+func checkXORAddressSize(m *stun.Message, t stun.AttrType) error {
+	v, err := m.Get(t)
+	if err != nil || len(v) <= 4 {
+		return nil //nolint:nilerr // reported by the decoder
+	}
+
+	switch v[1] {
+	case xorAddressFamilyIPv4:
+		return stun.CheckSize(t, len(v), xorAddressSizeIPv4)
+	case xorAddressFamilyIPv6:
+		return stun.CheckSize(t, len(v), xorAddressSizeIPv6)
+	default:
+		return nil
+	}
+}
 
 // Addr is ip:port.
 type Addr struct {
